@@ -889,7 +889,7 @@ def check(ctx: Ctx):
         # the Hoelder length D = (x_r - x_l)^(1/N) of the statement: N is the dimension of the evolvent's domain
         # (numberOfFloatVariables), whatever else the problem declares (= R06.4, re-run here)
         from . import c06
-        c06.r06_4(ctx)
+        c06.r06_4(ctx, timing=False)
     for rid, fn in (('R02.1', r02_1), ('R02.2', r02_2), ('R02.3', r02_3), ('R02.4', r02_4), ('R02.5', r02_5),
                     ('R02.6', r02_6), ('R02.7', r02_7_8)):
         if C.want(ctx, rid) or (rid == 'R02.7' and C.want(ctx, 'R02.8')):
